@@ -217,6 +217,11 @@ def check_scan(run, db):
     return n
 
 
+def _same_class_helper(fn, callee, t):
+    """small private helpers of the same class (an extracted size computation) are seen through"""
+    return bool(fn.cls) and callee.cls == fn.cls and callee.key != fn.key and len(callee.blocks) <= 8 and callee.short not in ('on_allocate', 'on_deallocate')
+
+
 def check_lowlevel(run, db):
     n = 0
     for ct, FENCE in (('detail::lowlevel_allocator', 'g:detail::max_alignment'), ('virtual_memory_allocator', 'g:virtual_memory_page_size')):
@@ -231,8 +236,8 @@ def check_lowlevel(run, db):
             n += 1
             inst = '%s [%s]' % (strip_ns(cls), db.config)
             probs = []
-            SA = [s for s in fwd.summarize(a, db=db, roles={0: 'size', 1: 'alignment'}, no_forward=True) if s.end == 'return']
-            SD = [s for s in fwd.summarize(d, db=db, roles={0: 'node', 1: 'size', 2: 'alignment'}, no_forward=True) if s.end == 'return']
+            SA = [s for s in fwd.summarize(a, db=db, roles={0: 'size', 1: 'alignment'}, no_forward=True, inline_pred=_same_class_helper) if s.end == 'return']
+            SD = [s for s in fwd.summarize(d, db=db, roles={0: 'node', 1: 'size', 2: 'alignment'}, no_forward=True, inline_pred=_same_class_helper) if s.end == 'return']
             fa = fd = None
             for s in SA:
                 fn = [c for c in s.calls if c[1].get('short') == 'debug_fill_new']
